@@ -200,19 +200,21 @@ func (fx *FX) execAppend(st *State, v ssa.Value, c *ssa.CallCommon, pos token.Po
 		grown := fx.fresh("appgrown", SIArr)
 		fx.line(fmt.Sprintf("(assert (forall ((%s Int)) (! (= (select %s %s) (ite (< %s %s) (select %s (+ %s %s)) (at %s (- %s %s)))) :pattern ((select %s %s)))))",
 			k, grown.S, k, k, dst.Len.S, oldArr.S, dst.Off.S, k, srcSeq.S, k, dst.Len.S, grown.S, k))
-		hIn := sto(st.H, dst.Ref, inpl)
-		hGr := sto(st.H, fr, grown)
-		st.H = fx.def("H", ite(fits, hIn, hGr))
+		oldView := fx.def("appoldview", app(SSeq, "view", oldArr, dst.Off, dst.Len))
+		resRef := fx.def("appref", ite(fits, dst.Ref, fr))
+		resArr := fx.def("apparr", ite(fits, inpl, grown))
+		st.H = fx.def("H", sto(st.H, resRef, resArr))
+		// sequence-level consequence of the element-wise facts: the result is old ++ src
+		fx.assume(tTrue, eq(app(SSeq, "view", resArr, ite(fits, dst.Off, num(0)), newLen), app(SSeq, "cat", oldView, srcSeq)))
 	} else {
 		fx.note("append of non-byte elements: written region havocked")
-		hIn := sto(st.H, dst.Ref, fx.fresh("appinpl", SIArr))
-		hGr := sto(st.H, fr, fx.fresh("appgrown", SIArr))
-		st.H = fx.def("H", ite(fits, hIn, hGr))
-		sIn := sto(st.Hs, dst.Ref, fx.fresh("appinpls", SSArr))
-		sGr := sto(st.Hs, fr, fx.fresh("appgrowns", SSArr))
-		st.Hs = fx.def("Hs", ite(fits, sIn, sGr))
+		resRef := fx.def("appref", ite(fits, dst.Ref, fr))
+		st.H = fx.def("H", sto(st.H, resRef, fx.fresh("apparr", SIArr)))
+		if hasStrLeaf(dst.Elem) {
+			st.Hs = fx.def("Hs", sto(st.Hs, resRef, fx.fresh("appsarr", SSArr)))
+		}
 	}
-	st.Alloc = fx.def("alloc", ite(fits, st.Alloc, sto(st.Alloc, fr, tTrue)))
+	st.Alloc = fx.def("alloc", sto(st.Alloc, fr, tTrue))
 	res := VSlice{
 		Ref:  fx.def("appref", ite(fits, dst.Ref, fr)),
 		Off:  fx.def("appoff", ite(fits, dst.Off, num(0))),
